@@ -144,6 +144,12 @@ def planOf : List String → Option (Plan × List String)
         (bodyOf b).map fun x => ({ code := c, headers := hs, kind := .stream (partsOf ((natList sz).map (· % 1073741825)) x) true }, rest)
       | "S" :: b :: sz :: rest =>
         (bodyOf b).map fun x => ({ code := c, headers := hs, kind := .stream (partsOf ((natList sz).map (· % 1073741825)) x) false }, rest)
+      | "w" :: b :: sz :: rest =>
+        (bodyOf b).map fun x => ({ code := c, headers := hs, kind := .streamAuto (partsOf ((natList sz).map (· % 1073741825)) x) }, rest)
+      | "W" :: b :: rest =>
+        -- the handler's own writeFile(): the file goes out in reads of the receive block, each written like a part
+        (bodyOf b).map fun x => ({ code := c, headers := hs, kind := .streamAuto (partsOf [recvBlock] x) }, rest)
+      | "m" :: rest => some ({ code := c, headers := hs, kind := .missing }, rest)
       | "R" :: loc :: rel :: b :: rest =>
         match unhexFast loc, (if rel == "-" then some [] else unhexFast rel), bodyOf b with
         | some l, some rl, some x => some ({ code := c, headers := hs, kind := .redirectRel l (substAuthority rl) x }, rest)
